@@ -26,6 +26,10 @@ class NeedChoice(Exception):
         self.n = n
 
 
+class Unbounded(BaseException):
+    pass
+
+
 class Env:
     def __init__(self, script):
         self.script = list(script)
@@ -33,6 +37,10 @@ class Env:
         self.events = []
 
     def choose(self, ev, outcomes):
+        if len(self.events) > 120:
+            # the real functions loop / recurse without bound under this environment: the per-process protocol is
+            # not a finite tree within the stated poll bound
+            raise Unbounded(f"more than 120 protocol events in one request (last: {self.events[-3:]})")
         if len(outcomes) == 1:
             self.events.append((ev, outcomes[0]))
             return outcomes[0]
@@ -262,6 +270,8 @@ def run_once(script, T=2, entry="forms", extended=False):
                 res = ("return", "wrong-objects")
         except NeedChoice as n:
             return ("need", n.n, list(env.events), list(req_names))
+        except Unbounded as u:
+            res = ("diverges", str(u)[:200])
         except BaseException as e:
             res = ("raise", type(e).__name__)
     finally:
@@ -290,6 +300,9 @@ def extract_tree(T=2, entry="forms", extended=False):
                 stack.append(sc + [c])
         else:
             leaves.append((tuple(sc), r[1], r[2], r[3]))
+        if len(leaves) > 600:
+            raise RuntimeError("the per-process protocol tree has more than 600 leaves: the real functions loop or recurse without bound under the "
+                               "environment model (a request that neither returns nor raises within the poll bound)")
     return sorted(leaves, key=lambda x: x[0])
 
 
